@@ -1,4 +1,5 @@
 import Folang.Model.TypeExpr
+import Folang.Lemmas.TypeRoundtrip
 /-
 C15 — type expressions map to Go types by the documented grammar.
 
@@ -6,10 +7,15 @@ Proved here, for sub-types of ANY depth: the model of FTypeToGo renders each typ
 documentation says (`toGo_*`: int/string/bool/any as themselves, float ↦ float64, () ↦ no result,
 []T, frt.Tuple2/3[...], func (A,B) C with a unit result omitted and a unit argument list empty,
 Name / Name[T, U]).
-NOT proved (kept visible as `roundtrip_full`): the parser model returns `t` on every rendering of `t`
-with minimal or redundant parentheses.  The parser model is executable; it is tied to the real
-parser by exhaustive enumeration up to depth 2/3 and random deeper expressions (DESIGN.md §C15);
-the precedence clauses of the statement are checked below on instances by kernel evaluation.
+`roundtrip`: for EVERY concrete syntax tree of the grammar (Model/TypeSyntax.lean: a tree per level
+TYPE > ELEM > TERM > ATOM, so it covers the parentheses the levels require and any redundant ones, any
+nesting depth, any number of arrows / stars / type arguments, dotted names) whose names resolve, the
+parser model applied to its rendering — followed by any token that cannot continue a type — returns
+exactly the FType the tree denotes and leaves the rest, for every sufficient fuel.  Hence `->` is
+flat and nests only through parentheses, `*` binds tighter than `->`, `[]` tighter than `*`,
+parentheses only group, `()` is unit, generic arguments are checked against the declared arity.
+The parser model is executable and tied to the real parser by exhaustive enumeration up to depth 2/3
+and random deeper expressions (DESIGN.md §C15).
 -/
 namespace Folang.Props.C15
 open Folang.TypeExpr
@@ -69,12 +75,32 @@ def level : FT → Nat
   | .slice _ => 2
   | _ => 3
 
-/-- FULL STATEMENT (not proved): every rendering of a well-formed type, with parentheses exactly
-where the level requires them or anywhere else redundantly, parses back to the type.  `Renders`
-would be the inductive relation "token list is a rendering of t"; kept as a parameter here so the
-statement is visible without pretending it is established. -/
-def roundtrip_full (Renders : TEnv → FT → List TTok → Prop) : Prop :=
-  ∀ env t ts, Renders env t ts → ∃ fuel, (parseType env fuel ts).map (fun r => toGo r.1) = some (toGo t)
+/-- **round trip**: the parser model returns the denoted type on the rendering of every concrete
+syntax tree whose names resolve, whatever follows (as long as it cannot continue a type) -/
+theorem roundtrip (env : TEnv) (t : STy) (hwf : wfTy env t = true) (rest : List TTok) (hstop : StopT rest)
+    (fuel : Nat) (hfuel : sizeTy t ≤ fuel) :
+    parseType env fuel (renderTy t ++ rest) = some (denoteTy env t, rest) :=
+  (rt_all env (sizeTy t)).ty t (Nat.le_refl _) hwf fuel hfuel rest hstop
+
+/-- … in particular on the whole input -/
+theorem roundtrip_whole (env : TEnv) (t : STy) (hwf : wfTy env t = true) :
+    parseType env (sizeTy t) (renderTy t) = some (denoteTy env t, []) := by
+  have := roundtrip env t hwf [] ⟨⟨⟨by simp [notHead], by simp [notHead]⟩, by simp [notHead]⟩, by simp [notHead]⟩
+    (sizeTy t) (Nat.le_refl _)
+  simpa using this
+
+/-- the Go type of a type expression is the documented rendering of the type its tree denotes -/
+theorem goType_of_rendering (env : TEnv) (t : STy) (hwf : wfTy env t = true) :
+    (parseType env (sizeTy t) (renderTy t)).map (fun r => toGo r.1) = some (toGo (denoteTy env t)) := by
+  rw [roundtrip_whole env t hwf]; rfl
+
+/-- what the tree levels mean: arrows are flat and a parenthesised arrow nests -/
+theorem denote_arrows_flat (env : TEnv) (a b c : SElem) :
+    denoteTy env (.arrows a [b, c]) = .func [denoteElem env a, denoteElem env b, denoteElem env c] := by
+  simp [denoteTy, denoteElems]
+
+theorem denote_paren (env : TEnv) (t : STy) : denoteAtom env (.paren t) = denoteTy env t := by
+  simp [denoteAtom]
 
 def env0 : TEnv := [("dict.Dict", "ext", "dict.Dict", 2), ("Rec", "record", "Rec", 0)]
 def goText (ts : List TTok) : Option String := (parseType env0 64 ts).map (fun r => toGo r.1)
@@ -96,5 +122,19 @@ example : goText [.id "int", .arrow, .lp, .rp] = some "func (int)" := by decide
 /-- external generic types keep their package qualifier -/
 example : goText [.id "dict", .dot, .id "Dict", .lt, .id "string", .comma, .lb, .rb, .id "Rec", .gt] =
     some "dict.Dict[string, []Rec]" := by decide
+
+/-- non-vacuity: `(int -> [](dict.Dict<string, Rec*int>)) * string -> bool` is a tree whose names resolve -/
+def sample : STy :=
+  .arrows
+    (.stars (.atom (.paren (.arrows (.stars (.atom (.base .int)) [])
+        [.stars (.slice (.atom (.paren (.arrows (.stars (.atom (.named "dict" ["Dict"]
+          [.arrows (.stars (.atom (.base .string)) []) [],
+           .arrows (.stars (.atom (.named "Rec" [] [])) [.atom (.base .int)]) []])) []) [])))) []])))
+      [.atom (.base .string)])
+    [.stars (.atom (.base .bool)) []]
+
+example : wfTy env0 sample = true := by decide
+example : (parseType env0 (sizeTy sample) (renderTy sample)).map (fun r => toGo r.1) =
+    some "func (frt.Tuple2[func (int) []dict.Dict[string, frt.Tuple2[Rec, int]], string]) bool" := by decide
 
 end Folang.Props.C15
